@@ -100,7 +100,10 @@ class Work:
                 if p.endswith(".go") and not p.endswith("_test.go"):
                     paths.append(p)
         if paths:
-            subprocess.check_call([tool] + paths, env=env_base(), stdout=subprocess.DEVNULL)
+            p = subprocess.run([tool] + paths, env=env_base(), stdout=subprocess.PIPE, stderr=subprocess.STDOUT, text=True)
+            for line in p.stdout.splitlines():
+                if "WARNING" in line or p.returncode != 0:
+                    log("  " + line)
 
     def build_test(self, pkg, race=False, goarch=None):
         key = (pkg, race, goarch)
@@ -539,6 +542,16 @@ def check_property(pid, tier, seed):
                     works[wkey] = w
                     w.populate(instrument=leg.instrument)
                 w = works[wkey]
+                if leg.instrument:
+                    # an instrumented build that does not compile is the rewriter's problem, not a verdict
+                    try:
+                        w.build_test(leg.pkg, race=leg.race, goarch=leg.goarch)
+                        for a in leg.app or []:
+                            w.build_app(a)
+                    except BuildError as be:
+                        log("  leg %s skipped: instrumented build failed (%s)" % (leg.name, str(be).splitlines()[-1][:200] if str(be) else ""))
+                        leginfo.append({"leg": leg.name, "skipped": "instrumented build failed"})
+                        continue
                 if leg.fuzz:
                     r = run_fuzz_leg(w, pid, leg, tier, seed)
                 else:
@@ -718,13 +731,27 @@ def main(argv):
         print("tier must be quick or thorough")
         return 2
     if argv[1] == "all":
-        rcs = [check_property(pid, tier, seed) for pid in sorted(PROPS)]
+        rcs = []
+        for pid in sorted(PROPS):
+            try:
+                rcs.append(check_property(pid, tier, seed))
+            except Exception as ex:
+                import traceback
+                traceback.print_exc()
+                log("INCONCLUSIVE property=%s driver error: %s" % (pid, ex))
+                rcs.append(2)
         return 1 if 1 in rcs else (2 if 2 in rcs else 0)
     pid = argv[1]
     if pid not in PROPS:
         print("unknown property %s" % pid)
         return 2
-    return check_property(pid, tier, seed)
+    try:
+        return check_property(pid, tier, seed)
+    except Exception as ex:  # an infrastructure problem is never a verdict
+        import traceback
+        traceback.print_exc()
+        log("INCONCLUSIVE property=%s driver error: %s" % (pid, ex))
+        return 2
 
 
 if __name__ == "__main__":
